@@ -306,6 +306,35 @@ func main() {
 			}
 		}
 	}
+	// 1b. page sizes at and around the API maximum (bunpaginate.MaxPageSize = 100) over collections around and above
+	// it: the look-ahead row (LIMIT pageSize+1) must exist there too. Every tier, every seed.
+	for _, n := range []int{0, 99, 100, 101, 150, 205} {
+		for _, s := range []uint64{99, 100, 101} {
+			rows := perm(g, n, int64(g.Intn(7))-3)
+			one(r, input{Kind: "off-walk", Rows: rows, Size: s, Order: "asc"})
+			one(r, input{Kind: "col-walk", Rows: rows, Size: s, Order: []string{"asc", "desc"}[g.Intn(2)]})
+		}
+	}
+	// the same through the real store and the HTTP handlers: one ledger with that many rows next to a small one
+	for _, n := range []int{0, 99, 100, 101, 150, 205} {
+		var tbl []brow
+		for i := 0; i < n; i++ {
+			tbl = append(tbl, brow{Ledger: "l1", ID: int64(i), Attr: g.Intn(3)})
+			if i%40 == 0 {
+				tbl = append(tbl, brow{Ledger: "l2", ID: int64(i / 40), Attr: g.Intn(3)})
+			}
+		}
+		for i := len(tbl) - 1; i > 0; i-- {
+			j := g.Intn(i + 1)
+			tbl[i], tbl[j] = tbl[j], tbl[i]
+		}
+		one(r, input{Kind: "store", Listing: "accounts", Table: tbl, Own: "l1", Size: uint64(99 + g.Intn(3)), Pit: pit})
+		one(r, input{Kind: "http-v2", Listing: "accounts", Table: tbl, Own: "l1", SizeParam: sp("100"), Pit: pit})
+		one(r, input{Kind: "http-v1", Listing: "accounts", Table: tbl, Own: "l1", SizeParam: sp([]string{"100", "101", "150", "204", "1000"}[g.Intn(5)]), Pit: pit})
+		lst := []string{"transactions", "logs"}[g.Intn(2)]
+		one(r, input{Kind: "http-v2", Listing: lst, Table: tbl, Own: "l1", SizeParam: sp("100"), Pit: pit})
+		one(r, input{Kind: "http-v1", Listing: lst, Table: tbl, Own: "l1", SizeParam: sp([]string{"100", "101", "150"}[g.Intn(3)]), Pit: pit})
+	}
 	// 2. the hypotheses: page size 0, duplicate keys (the calls go to the model; the walk oracle is off)
 	for n := 0; n <= 4; n++ {
 		for _, o := range []string{"asc", "desc"} {
